@@ -132,6 +132,13 @@ type zzConn struct {
 	blockWhenIdle bool
 	wake          chan struct{}
 	woken         bool
+	inject        chan zzRead
+
+	// gateUnicast: a unicast transmission blocks inside the socket until released
+	gateUnicast bool
+	release     chan struct{}
+	inFlight    int
+	events      []string // order of visible events: "write:<n>", "run-returned"
 }
 
 type zzRead struct {
@@ -148,8 +155,18 @@ func (c *zzConn) ReadFrom() (ndp.Message, *ipv6.ControlMessage, netip.Addr, erro
 			if c.wake == nil {
 				c.wake = make(chan struct{})
 			}
-			<-c.wake
-			return nil, nil, netip.Addr{}, zzTimeout{}
+			if c.inject == nil {
+				c.inject = make(chan zzRead)
+			}
+			select {
+			case r := <-c.inject:
+				if r.err != nil {
+					return nil, nil, netip.Addr{}, r.err
+				}
+				return r.m, &ipv6.ControlMessage{HopLimit: r.hop}, r.host, nil
+			case <-c.wake:
+				return nil, nil, netip.Addr{}, zzTimeout{}
+			}
 		}
 		return nil, nil, netip.Addr{}, zzErrEnv
 	}
@@ -177,7 +194,16 @@ func (c *zzConn) SetReadDeadline(t time.Time) error {
 
 func (c *zzConn) WriteTo(m ndp.Message, cm *ipv6.ControlMessage, dst netip.Addr) error {
 	ra, _ := m.(*ndp.RouterAdvertisement)
+	if c.gateUnicast && !dst.IsMulticast() {
+		if c.release == nil {
+			c.release = make(chan struct{})
+		}
+		c.inFlight++
+		<-c.release // the packet leaves the machine only now
+		c.inFlight--
+	}
 	c.writes = append(c.writes, zzWrite{ra: ra, dst: dst})
+	c.events = append(c.events, "write")
 	if c.failWrite {
 		return zzErrEnv
 	}
